@@ -27,13 +27,22 @@ struct Item {
     /// a second relative ratio, set (no ramp) after two processing calls; `ratio` is then
     /// construction ratio x this factor, and frames of the first two calls are not compared
     pre2: Option<f64>,
+    /// two channels, channel 1 masked out and empty in every call; the stream ends with a
+    /// partial call for the frames that are left (the polynomial is reproduced there too,
+    /// wherever the window lies inside the supplied data)
+    tail: bool,
 }
 
 impl Item {
     fn cfg(&self, chunk: usize) -> Cfg {
-        match self.pre {
+        let c = match self.pre {
             Some((r0, m, _)) => Cfg::fast(self.kind, r0, m, chunk, self.degree),
             None => Cfg::fast(self.kind, self.ratio, 1.0, chunk, self.degree),
+        };
+        if self.tail {
+            c.with_channels(2)
+        } else {
+            c
         }
     }
     fn rel(&self) -> Option<f64> {
@@ -47,24 +56,29 @@ fn items(tier: Tier) -> Vec<Item> {
     for degree in Degree::ALL {
         for &ratio in &ratios {
             for kind in [Kind::FI, Kind::FO] {
-                v.push(Item { degree, ratio, kind, pre: None, ramp: false, pre2: None });
+                v.push(Item { degree, ratio, kind, pre: None, ramp: false, pre2: None, tail: false });
             }
         }
         for (r0, m, x) in [(1.0, 4.0, 4.0), (1.0, 4.0, 0.25), (0.5, 2.0, 1.7), (2.0, 2.0, 0.6)] {
             for kind in [Kind::FI, Kind::FO] {
-                v.push(Item { degree, ratio: r0 * x, kind, pre: Some((r0, m, x)), ramp: false, pre2: None });
-                v.push(Item { degree, ratio: r0 * x, kind, pre: Some((r0, m, x)), ramp: true, pre2: None });
+                v.push(Item { degree, ratio: r0 * x, kind, pre: Some((r0, m, x)), ramp: false, pre2: None, tail: false });
+                v.push(Item { degree, ratio: r0 * x, kind, pre: Some((r0, m, x)), ramp: true, pre2: None, tail: false });
                 // a second change after two calls: back towards the other end of the range
                 let x2 = if x > 1.0 { 1.0 / m.min(2.0) } else { m.min(2.0) };
-                v.push(Item { degree, ratio: r0 * x2, kind, pre: Some((r0, m, x)), ramp: false, pre2: Some(x2) });
+                v.push(Item { degree, ratio: r0 * x2, kind, pre: Some((r0, m, x)), ramp: false, pre2: Some(x2), tail: false });
+            }
+        }
+        for ratio in [0.8, 1.25] {
+            for kind in [Kind::FI, Kind::FO] {
+                v.push(Item { degree, ratio, kind, pre: None, ramp: false, pre2: None, tail: true });
             }
         }
         // strong decimation (more than 7 input frames per output frame: the carried position lies
         // further back than the 16-frame history), two chunks, then a higher ratio - by half a
         // per mille, by 40 %
         for (r0, m, x2) in [(1.0 / 12.0, 1.5, 1.0005), (1.0 / 12.0, 1.5, 1.4), (1.0 / 40.0, 2.0, 1.05), (1.0 / 9.0, 1.5, 0.8)] {
-            v.push(Item { degree, ratio: r0 * x2, kind: Kind::FI, pre: Some((r0, m, 1.0)), ramp: false, pre2: Some(x2) });
-            v.push(Item { degree, ratio: r0 * x2, kind: Kind::FO, pre: Some((r0, m, 1.0)), ramp: false, pre2: Some(x2) });
+            v.push(Item { degree, ratio: r0 * x2, kind: Kind::FI, pre: Some((r0, m, 1.0)), ramp: false, pre2: Some(x2), tail: false });
+            v.push(Item { degree, ratio: r0 * x2, kind: Kind::FO, pre: Some((r0, m, 1.0)), ramp: false, pre2: Some(x2), tail: false });
         }
     }
     v
@@ -90,16 +104,24 @@ fn fail(acc: &mut Acc, cfg: &Cfg, sig: &str, detail: String, point: String) {
 
 /// The instants at which the output frames are evaluated, from the same configuration with
 /// `Linear` (which reproduces the index signal exactly); control is degree independent.
-fn instants(cfg: &Cfg, n_in: usize, rel: Option<f64>, ramp: bool, pre2: Option<f64>) -> Result<(Vec<f64>, usize), String> {
+fn instants(cfg: &Cfg, n_in: usize, rel: Option<f64>, ramp: bool, pre2: Option<f64>, tail: bool) -> Result<(Vec<f64>, usize), String> {
     let mut c = cfg.clone();
     c.degree = Degree::Linear;
     let base = 1048576.0;
     let x: Vec<f64> = (0..n_in).map(|n| n as f64 + base).collect();
-    let s = resample_all_x::<f64>(&c, &x, &Opts { pre: rel, ramp, pre2: pre2.map(|x| (x, 2)), ..Opts::default() })?;
+    let s = resample_all_x::<f64>(&c, &x, &Opts { pre: rel, ramp, pre2: pre2.map(|x| (x, 2)), masked_tail: tail, ..Opts::default() })?;
     // frames of the first call (the ramp chunk when a ramp was requested), or of the first two
     // calls when the ratio is changed again after them
     let first_call = if pre2.is_some() { s.calls.iter().take(2).map(|c| c.1).sum() } else { s.calls.first().map(|c| c.1).unwrap_or(0) };
-    Ok((s.out.iter().map(|y| y - base).collect(), first_call))
+    let mut tau: Vec<f64> = s.out.iter().map(|y| y - base).collect();
+    if tail {
+        // the last call pads with zeros: instants whose interpolation window reaches the padding
+        // are not instants any more
+        if let Some(cut) = tau.iter().position(|t| *t + 5.0 >= n_in as f64) {
+            tau.truncate(cut);
+        }
+    }
+    Ok((tau, first_call))
 }
 
 fn one<T: Flt>(acc: &mut Acc, item: &Item, chunk: usize, journal: Option<&JournalFile>) -> Result<(), String> {
@@ -110,7 +132,7 @@ fn one<T: Flt>(acc: &mut Acc, item: &Item, chunk: usize, journal: Option<&Journa
     let n_in = n_in.min(20000);
     let ramp = item.ramp;
     let pre2 = item.pre2;
-    let (tau, first_call) = instants(&cfg, n_in, rel, ramp, pre2)?;
+    let (tau, first_call) = instants(&cfg, n_in, rel, ramp, pre2, item.tail)?;
     // uniform spacing 1/ratio
     let step = 1.0 / item.ratio;
     let mut first_valid = tau.iter().position(|t| *t >= 4.0).unwrap_or(tau.len());
@@ -136,7 +158,7 @@ fn one<T: Flt>(acc: &mut Acc, item: &Item, chunk: usize, journal: Option<&Journa
         let x: Vec<f64> = (0..n_in).map(|n| (n as f64 / 64.0).powi(k as i32)).collect();
         // in f32 the input itself is rounded: compare with the polynomial through the rounded
         // samples only up to the conditioning of the interpolation formula
-        let s = resample_all_x::<T>(&cfg, &x, &Opts { pre: rel, ramp, pre2: pre2.map(|x| (x, 2)), ..Opts::default() })?;
+        let s = resample_all_x::<T>(&cfg, &x, &Opts { pre: rel, ramp, pre2: pre2.map(|x| (x, 2)), masked_tail: item.tail, ..Opts::default() })?;
         acc.evals += 1;
         let n = s.out.len().min(tau.len());
         let mut worst = 0.0f64;
@@ -239,7 +261,7 @@ fn one<T: Flt>(acc: &mut Acc, item: &Item, chunk: usize, journal: Option<&Journa
         for f in [0.05f64, 0.1, 0.2, 0.4] {
             let w = std::f64::consts::PI * f;
             let x: Vec<f64> = (0..n_in).map(|n| (w * n as f64 + 0.3).sin()).collect();
-            let s = resample_all_x::<f64>(&cfg, &x, &Opts { pre: rel, ramp, pre2: pre2.map(|x| (x, 2)), ..Opts::default() })?;
+            let s = resample_all_x::<f64>(&cfg, &x, &Opts { pre: rel, ramp, pre2: pre2.map(|x| (x, 2)), masked_tail: item.tail, ..Opts::default() })?;
             acc.evals += 1;
             let n = s.out.len().min(tau.len());
             let mut worst = 0.0f64;
@@ -271,7 +293,7 @@ fn sawtooth<T: Flt>(acc: &mut Acc, item: &Item, chunk: usize, journal: Option<&J
     let n_in = (2.2 * span) as usize + 400;
     let ramp = item.ramp;
     let pre2 = item.pre2;
-    let (tau, first_call) = instants(&cfg, n_in, rel, ramp, pre2)?;
+    let (tau, first_call) = instants(&cfg, n_in, rel, ramp, pre2, item.tail)?;
     let deg = item.degree.degree();
     let eps_t = if T::IS_F32 { f32::EPSILON as f64 } else { f64::EPSILON };
     let (lo, hi) = match item.degree {
@@ -288,7 +310,7 @@ fn sawtooth<T: Flt>(acc: &mut Acc, item: &Item, chunk: usize, journal: Option<&J
         }
         let tooth = |n: f64| (((n % 64.0) - 32.0) / 8.0).powi(k as i32);
         let x: Vec<f64> = (0..n_in).map(|n| tooth(n as f64)).collect();
-        let s = resample_all_x::<T>(&cfg, &x, &Opts { pre: rel, ramp, pre2: pre2.map(|x| (x, 2)), ..Opts::default() })?;
+        let s = resample_all_x::<T>(&cfg, &x, &Opts { pre: rel, ramp, pre2: pre2.map(|x| (x, 2)), masked_tail: item.tail, ..Opts::default() })?;
         acc.evals += 1;
         let n = s.out.len().min(tau.len());
         let (mut worst, mut worst_at, mut count) = (0.0f64, 0usize, 0u64);
